@@ -420,6 +420,24 @@ func genDf1415(c *Ctx) {
 			}
 		}
 	})
+	// counters that wrap at a very large maximum (2^53, 2^63, 2^64): the wrap delta is (max - prev) + curr - adding the
+	// reading to the maximum first loses it to rounding
+	for _, mx := range []float64{1 << 53, 1 << 63, 18446744073709551616.0} {
+		prevI := int64(mx) - 2
+		if mx >= 1<<63 {
+			prevI = math.MaxInt64 - 1023
+		}
+		if mx <= 1<<63 { // an integer counter cannot wrap at 2^64: the delta would not fit the column type
+			c.Case(true, fmt.Sprintf("df i + 1 %s | 0:%d,%d:1,%d:100", fbits1415(mx), prevI, hourNs1415, 2*hourNs1415))
+			c.Case(true, fmt.Sprintf("rt i + 3600 1 %s | 0:%d,%d:1,%d:100", fbits1415(mx), prevI, hourNs1415, 2*hourNs1415))
+		}
+		prevF := mx - 4096
+		if mx == 1<<53 {
+			prevF = mx - 2
+		}
+		c.Case(true, fmt.Sprintf("df f + 1 %s | 0:%s,%d:%s,%d:%s", fbits1415(mx), fbits1415(prevF), hourNs1415, fbits1415(1000), 2*hourNs1415, fbits1415(1500.5)))
+		c.Case(true, fmt.Sprintf("rt f + 3600 1 %s | 0:%s,%d:%s,%d:%s", fbits1415(mx), fbits1415(prevF), hourNs1415, fbits1415(1000), 2*hourNs1415, fbits1415(1500.5)))
+	}
 	// large counters: integer deltas must stay exact above 2^53 (no detour through float64)
 	for _, base := range []int64{1 << 53, 1 << 60, (1 << 62) + 12345, 9007199254740993} {
 		for _, incs := range [][]int64{{1, 2, 1, 5}, {1, 98, 1, 256}, {3, 3, 3}, {255, 257, 1}} {
